@@ -2,6 +2,7 @@
 
 Translated (fail closed: an unexpected shape of the statement is a TranslateError):
   * the lower bound of a task's start variable           (TaskOptimizerVariables.__init__, `lb=max(...)`)
+  * whether the warm-start loop of a SCHEDULED task skips the constant-0 pairs (same function)
   * the deadline row  start + sum(x * runtime) <= deadline  (_initialize_timing_constraints)
   * the two placement rows  sum(x) == 1 / <= 1            (_initialize_placement_constraints)
   * the precedence row  child >= parent + x * (runtime + 1) (_add_task_dependency_constraints)
@@ -149,6 +150,22 @@ def frag_ilp(repo):
     if vals != ["current_time." + US]:
         raise TranslateError("ilp fragment: start of a RUNNING task is no longer the current time: %s" % vals)
     out.append("Definition running_start (now : Z) : Z := now.\n")
+
+    # ---- warm start of a SCHEDULED task: `.Start` may only be assigned to real variables
+    loops = [n for n in ast.walk(init) if isinstance(n, ast.For) and unp(n.iter) == "self._placed_on_worker_with_strategy.items()"
+             and any(isinstance(m, ast.Assign) and unp(m.targets[0]) == "placement_variable.Start" for m in ast.walk(n))]
+    if len(loops) != 1:
+        raise TranslateError("ilp fragment: warm-start loop over the placement variables not found (%d)" % len(loops))
+    first = loops[0].body[0]
+    guarded = (isinstance(first, ast.If) and unp(first.test) == "not isinstance(placement_variable, gp.Var)"
+               and not first.orelse and isinstance(first.body[-1], ast.Continue)
+               and all(isinstance(x, (ast.Continue, ast.Expr)) for x in first.body))
+    touched = [m for st_ in (loops[0].body[1:] if guarded else loops[0].body) for m in ast.walk(st_)
+               if isinstance(m, ast.Assign) and unp(m.targets[0]) == "placement_variable.Start"]
+    if not touched:
+        raise TranslateError("ilp fragment: warm-start loop no longer assigns placement_variable.Start")
+    out.append("(* the warm-start loop skips (worker, strategy) pairs represented by the constant 0 *)\n"
+               "Definition warm_start_guarded : bool := %s.\n" % ("true" if guarded else "false"))
 
     # ---- deadline row
     f = find_func(TOV, "_initialize_timing_constraints")
